@@ -38,6 +38,7 @@ type kClass struct {
 	Static   []kMethod // def self.x
 	Meta     []kMethod // class << self
 	Init     [2]int    // required, optional; -1 = no initialize
+	InitTail string    // what follows the positionals of initialize: "", "*rest", "**opts", "*rest, **opts", "&blk", "*rest, &blk"
 	Reopen   []kMethod // instance methods added by a later reopening
 }
 
@@ -146,6 +147,9 @@ func genHierarchy(r *RNG) *kCase {
 		}
 		if r.Chance(1, 2) {
 			c.Init = [2]int{r.Intn(3), r.Intn(2)}
+			if r.Chance(1, 3) {
+				c.InitTail = Pick(r, []string{"*rest", "**opts", "*rest, **opts", "&blk", "*rest, &blk", "*rest, **opts, &blk"})
+			}
 		}
 		if r.Chance(1, 3) {
 			c.Reopen = append(c.Reopen, kMethod{Name: fmt.Sprintf("re%d", i), Ret: Pick(r, scal), Vis: "public"})
@@ -218,6 +222,16 @@ func genHierarchy(r *RNG) *kCase {
 		}
 		return findInit(cls[ci].Super, depth+1)
 	}
+	var initTail func(ci int, depth int) string
+	initTail = func(ci int, depth int) string {
+		if ci < 0 || depth > 8 {
+			return ""
+		}
+		if cls[ci].Init[0] >= 0 {
+			return cls[ci].InitTail
+		}
+		return initTail(cls[ci].Super, depth+1)
+	}
 	hasInit := func(ci int) bool {
 		for d := 0; ci >= 0 && d < 10; ci, d = cls[ci].Super, d+1 {
 			if cls[ci].Init[0] >= 0 {
@@ -282,6 +296,9 @@ func genHierarchy(r *RNG) *kCase {
 			}
 			for k := 0; k < c.Init[1]; k++ {
 				ps = append(ps, fmt.Sprintf("o%d = 1", k))
+			}
+			if c.InitTail != "" {
+				ps = append(ps, c.InitTail)
 			}
 			// initialize is private whatever section it is written in, and `new`
 			// stays public: one class in four writes it below `private`
@@ -386,7 +403,11 @@ func genHierarchy(r *RNG) *kCase {
 	}
 	for ci, c := range cls {
 		in := findInit(ci, 0)
-		emit(fmt.Sprintf("o%d = %s.new%s", ci, c.qual(), newArgs(in[0]+r.Intn(in[1]+1))))
+		nargs := in[0] + r.Intn(in[1]+1)
+		if strings.Contains(initTail(ci, 0), "*rest") && nargs == in[0]+in[1] {
+			nargs += r.Intn(3) // the rest parameter takes what is left
+		}
+		emit(fmt.Sprintf("o%d = %s.new%s", ci, c.qual(), newArgs(nargs)))
 		kc.Expects = append(kc.Expects, kExpect{Row: row() - 1, Kind: "clean", What: "new with an argument count initialize accepts", Feat: "new-ok"})
 	}
 	probe := func(expr, want, what, feat string) {
@@ -478,7 +499,7 @@ func genHierarchy(r *RNG) *kCase {
 				kc.Expects = append(kc.Expects, kExpect{Row: row(), Kind: "error", What: fmt.Sprintf("%s.new with %d argument(s), initialize requires %d", c.qual(), in[0]-1, in[0]), Feat: "new-too-few:" + df})
 				emit(fmt.Sprintf("x%d = %s.new%s", ci, c.qual(), newArgs(in[0]-1)))
 			}
-		} else if hasInit(ci) {
+		} else if hasInit(ci) && !strings.Contains(initTail(ci, 0), "*rest") {
 			kc.Expects = append(kc.Expects, kExpect{Row: row(), Kind: "error", What: fmt.Sprintf("%s.new with %d argument(s), initialize takes at most %d", c.qual(), in[0]+in[1]+1, in[0]+in[1]), Feat: "new-too-many:" + df})
 			emit(fmt.Sprintf("y%d = %s.new%s", ci, c.qual(), newArgs(in[0]+in[1]+1)))
 		}
@@ -689,7 +710,7 @@ func init() {
 			return judgeHierarchy(c, s.BlackBox(), &kc)
 		},
 		Run: func(c *CheckCtx) {
-			c.rule = "generated hierarchies of 1-4 classes (superclass chains of depth 0-3, optionally inside a namespace module and referenced by qualified name) and 0-2 modules that are included or extended; every method returns a literal of a known class; own/inherited/overridden/reopened instance methods, `def self.` and `class << self` class methods, extended modules, initialize with required and optional parameters (one in four written inside a private section or as `private def initialize`), private and protected methods (by section keyword followed by `public`, by `private def m`, or by `private :m` after the definition) followed by public methods, reopenings that add and redefine methods; class names drawn from names the shipped configuration declares in other frames (Base, Relation, Table, Error) and fresh names. Probes: dbtp of calls by name on an instance and on the class (expected: the class of the nearest definition in Ruby's lookup order, or an undefined-method diagnostic), explicit-receiver calls of private methods and top-level calls of protected methods (diagnostic), private via implicit receiver and protected via another instance inside the hierarchy (no diagnostic, right type), new with accepted / too few / too many arguments; no diagnostic on any definition row. distinct_nontrivial = distinct programs"
+			c.rule = "generated hierarchies of 1-4 classes (superclass chains of depth 0-3, optionally inside a namespace module and referenced by qualified name) and 0-2 modules that are included or extended; every method returns a literal of a known class; own/inherited/overridden/reopened instance methods, `def self.` and `class << self` class methods, extended modules, initialize with required and optional parameters (one in four written inside a private section or as `private def initialize`; one in three followed by *rest, **opts and/or &blk), private and protected methods (by section keyword followed by `public`, by `private def m`, or by `private :m` after the definition) followed by public methods, reopenings that add and redefine methods; class names drawn from names the shipped configuration declares in other frames (Base, Relation, Table, Error) and fresh names. Probes: dbtp of calls by name on an instance and on the class (expected: the class of the nearest definition in Ruby's lookup order, or an undefined-method diagnostic), explicit-receiver calls of private methods and top-level calls of protected methods (diagnostic), private via implicit receiver and protected via another instance inside the hierarchy (no diagnostic, right type), new with accepted / too few / too many arguments; no diagnostic on any definition row. distinct_nontrivial = distinct programs"
 			c.assumptions = []string{"module method names are unique per module and differ from class method names, so Ruby's module-vs-superclass order never decides a probe", "private/protected method names are unique per class"}
 			r := c.RNG.Sub(16)
 			n := c.N(300, 8000)
